@@ -5,6 +5,7 @@
    (how the opaque objects of the library — a geometry, the result of compute_bounds, a
    constructor call — are represented), which is part of the translator's trusted base. *)
 From SE Require Export Base.Num Base.Res Geom.Geometry Geom.Buffer Geom.Features Eval.Encoding.
+From SE Require Aoef.Paths.
 From Coq Require Import Qround.
 Open Scope Q_scope.
 
@@ -216,3 +217,8 @@ Fixpoint dd_insert {A} (k : nat) (v : A) (d : list (nat * list A)) : list (nat *
   end.
 Definition dd_values {A} (log : list (nat * A)) : list (list A) :=
   map snd (fold_left (fun d p => dd_insert (fst p) (snd p) d) log []).
+
+(* ================= C18: pathlib on lists of components (Aoef/Paths.v) ================= *)
+Definition py_relative_to (p d : list Z) : res (list Z) :=
+  match SE.Aoef.Paths.strip d p with Some r => Ok r | None => Err EValue end.
+Definition py_path_join (d p : list Z) : list Z := SE.Aoef.Paths.join d p.
